@@ -8,7 +8,7 @@ import locate_common as lc
 ID = 'C10'
 PROPS_FILE = 'Props/C10.v'
 MODEL_FILES = ['Locate/Locate.v', 'Locate/LocateK.v']
-K_NAME = ('K_locate (Locate.get_item / set_item / locate / eval_bt_slice / set_pos / set_whole, element type Z, run by vm_compute, vs '
+K_NAME = ('K_locate (Locate.get_item / set_item / locate / eval_bt_slice / set_pos / set_whole + LocateIndex.reg_get_loc, element type Z, run by vm_compute, vs '
           'VectorContainer / BaseModel __getitem__ / __setitem__ / _locate_period_in_span / eval on the same span, key and operand)')
 RULE = ('exhaustive at the tier bound: every span of length 0..N (quick N=6 on VectorContainer, N=3 on BaseModel; thorough N=9 / 7) of each type '
         '(range with non-zero origin and steps 1, 2, -1; str list; tuple; mixed hashables incl. True/1.0-style equal labels, 2.5, a pair, None; '
@@ -16,11 +16,13 @@ RULE = ('exhaustive at the tier bound: every span of length 0..N (quick N=6 on V
         'absent labels (same type, other type, a pair) x every (start, stop, step) over these labels, open ends and steps None,1,2,3,n,n+1 '
         '(plus 0 and negative steps on a subset) x get and set (scalar, one-element and full-length sequence, wrong-length sequence); '
         'pandas partial-string labels (slice-valued locations); spans with duplicate labels; positional and whole-series writes read back '
-        'through every path; backticked label slices through eval(); histories (the same labels looked up first on a sibling container where they '
+        'through every path; names that are no variables (incl. attributes / strict) on the tuple-key read and write paths; backticked label slices through eval(); histories (the same labels looked up first on a sibling container where they '
         'sit at other positions). Non-trivial = span of at least 2 periods and (an exception path or at '
         'least one element addressed); distinct by hash of the whole case.')
 TRUSTED = ['label encoding harness/locate_common.py (Python equality of labels = structural equality of the canonical code)',
-           'pandas get_loc / __contains__ answers are recorded per case and handed to the model as its oracle table']
+           'pandas get_loc / __contains__ answers are recorded per case and handed to the model as its oracle table; for period_range and '
+           'fixed-frequency date_range spans they are ALSO compared, label by label, with the executable index model LocateIndex.reg_get_loc / '
+           'reg_contains for which locate_spec is proved (so for these spans pandas is modelled, not assumed)']
 ASSUMPTIONS = ['operand values already have the dtype of the series (the model moves data, it does not cast)',
                'pandas Index.get_loc on a duplicate-free index meets locate_spec (checked on every recorded answer)',
                'a label None cannot be used as a slice bound (Python reads it as an open end)']
@@ -119,7 +121,20 @@ def impl(case):
     if lc.is_pandas(case['span']):
         obs['pd'] = lc.record_pandas(span, lc.span_labels(case['span']) + _key_labels(case))
     x_before = c.__dict__['_X']
-    if kind == 'get':
+
+    def book():
+        d = c.__dict__
+        return [list(d['index']), [str(x) for x in d['_attributes']], repr(d['_strict']), len(d), [lc.enc_label(p) for p in d['span']]]
+    book_before = book()
+    if kind in ('getn', 'setn'):
+        if kind == 'getn':
+            obs['out'] = _res(lambda: c[op['name'], _key(op['key'])])
+        else:
+            def f():
+                c[op['name'], _key(op['key'])] = _operand(op['w'])
+            r = _res(f)
+            obs['out'] = r if r[0] == 'raise' else ['ret', 'none']
+    elif kind == 'get':
         obs['out'] = _res(lambda: c['X', _key(op['key'])])
     elif kind == 'set':
         def f():
@@ -158,6 +173,10 @@ def impl(case):
         obs['out'] = r if r[0] == 'raise' else ['ret', 'none']
     else:
         raise AssertionError(kind)
+    try:
+        obs['book_ok'] = book() == book_before
+    except Exception:
+        obs['book_ok'] = False
     obs['same_array'] = c.__dict__['_X'] is x_before
     obs['after'] = lc.clist_vals(c.__dict__['_X'])
     obs['other'] = lc.clist_vals(c.__dict__['_Y'])
@@ -215,6 +234,10 @@ def c_op(op):
         return '(OpSetPos %s %s)' % (lib.cZ(op['i']), lib.cZ(op['v']))
     if k == 'setwhole':
         return '(OpSetWhole %s)' % c_operand(op['w'])
+    if k == 'getn':
+        return '(OpGetN %s %s)' % (lc.c_str(op['name']), c_key(op['key']))
+    if k == 'setn':
+        return '(OpSetN %s %s %s)' % (lc.c_str(op['name']), c_key(op['key']), c_operand(op['w']))
     raise AssertionError(op)
 
 
@@ -414,7 +437,14 @@ def oracle(case, obs):
 
     exp_after = data
     site = kind
-    if kind in ('get', 'set'):
+    if not obs.get('book_ok', True):
+        bad(kind, 'bookkeeping-changed', 'the access changed the container\'s own bookkeeping (index / _attributes / _strict / span / __dict__ size)')
+    if kind in ('getn', 'setn'):
+        # a name that is no variable: KeyError before anything is located or written, whatever the key
+        if out != ['raise', 'KeyError']:
+            bad('%s(unknown name)' % kind[:3], 'unknown-name-accepted' if out[0] == 'ret' else 'unknown-name-' + out[1],
+                'obj[%r, key]%s: expected KeyError, got %s' % (op['name'], ' = v' if kind == 'setn' else '', out))
+    elif kind in ('get', 'set'):
         k = op['key']
         site = '%s(%s)' % (kind, 'label' if 'label' in k else 'slice')
         if 'label' in k:
@@ -670,6 +700,18 @@ def cases_for_span(spec, cls, rng, level):
         add({'kind': 'locate', 'label': j})
     if labs:
         add({'kind': 'set', 'key': {'label': labs[-1]}, 'w': {'seq': [99]}})
+    # the same label written as another numeric type (2001.0 for 2001; True for 1): Python equality, so the same period
+    if spec['type'] in ('range', 'list', 'tuple', 'nparr'):
+        for j in [x for x in (labs[:1] + labs[-1:]) if x[0] == 'i']:
+            alias = ['f', float(j[1])]
+            add({'kind': 'get', 'key': {'label': alias}})
+            add({'kind': 'set', 'key': {'label': alias}, 'w': {'scalar': 99}})
+            add({'kind': 'locate', 'label': alias})
+            add({'kind': 'get', 'key': {'slice': [alias, None, 2]}})
+            add({'kind': 'set', 'key': {'slice': [None, alias, None]}, 'w': {'scalar': 99}})
+        if ['i', 1] in labs:
+            add({'kind': 'get', 'key': {'label': ['b', True]}})
+            add({'kind': 'set', 'key': {'label': ['b', True]}, 'w': {'scalar': 99}})
     # every (start, stop, step)
     steps = [None, 1, 2, 3] + ([n] if n > 3 else []) + [n + 1]
     get_steps = steps if level >= 1 else [None, 2, 3, n + 1]
@@ -696,6 +738,14 @@ def cases_for_span(spec, cls, rng, level):
         if a in partial_strings(spec) or b in partial_strings(spec) or a in pair or b in pair:
             add({'kind': 'get', 'key': {'slice': [a, b, s]}})
             add({'kind': 'set', 'key': {'slice': [a, b, s]}, 'w': {'scalar': 99}})
+    # names that are no variables ('attributes' / 'strict': '_' + name IS an entry of the object's __dict__)
+    for nm in ('Q', 'attributes', 'strict'):
+        for j in labs[:2] + absent[:1]:
+            add({'kind': 'getn', 'name': nm, 'key': {'label': j}})
+            add({'kind': 'setn', 'name': nm, 'key': {'label': j}, 'w': {'scalar': 99}})
+        for sl in ([None, None, None], [labs[0] if labs else None, labs[-1] if labs else None, 2]):
+            add({'kind': 'getn', 'name': nm, 'key': {'slice': sl}})
+            add({'kind': 'setn', 'name': nm, 'key': {'slice': sl}, 'w': {'scalar': 99} if nm != 'attributes' else {'seq': [70]}})
     # positional and whole-series writes, read back by label
     for i in range(-n - 1, n + 1):
         add({'kind': 'setpos', 'i': i, 'v': 99, 'via': 'attr' if i % 2 else 'key'})
